@@ -396,3 +396,35 @@ macro_rules! enc_text_utf8 {
 }
 enc_text_utf8!(c01_enc_s_utf8_le, 1, false);
 enc_text_utf8!(c01_enc_s_utf8_be, 0, true);
+
+// Fixed non-ASCII text, symbolic message offset and byte order: the text is concrete so that any per-character loop
+// in the encoder folds to a constant (the symbolic-scalar harness above times out, exit 2, on such a change instead
+// of producing a counterexample); the quantified inputs here are the offset and the byte order.
+macro_rules! enc_text_utf8_fixed {
+    ($h:ident, $text:expr) => {
+        #[kani::proof]
+        #[kani::unwind(9)]
+        #[kani::stub(alloc::fmt::format, no_format)]
+        #[kani::stub(<std::os::fd::OwnedFd as core::ops::Drop>::drop, no_close)]
+        fn $h() {
+            const T: &str = $text;
+            let (pos, be) = sym_ctx();
+            let mut buf = [0u8; 32];
+            let mut cur = Cursor::new(&mut buf[..]);
+            let r = unsafe { to_writer_for_signature(&mut cur, ctx(pos, be), Signature::Str, T) };
+            let mut m = Out::new(pos, be);
+            m.string(T.as_bytes());
+            match &r {
+                Ok(w) => {
+                    kani::cover!(pos % 4 == 3, "text after one byte of padding");
+                    assert!(w.size() == m.len, "fixed non-ASCII text: encoded length differs from the D-Bus marshalling rules");
+                    assert!(same32(&buf, &model32(&m)), "fixed non-ASCII text: the length prefix must count bytes, and all bytes must be written");
+                }
+                Err(_) => assert!(false, "encoding a well-typed value failed"),
+            }
+            core::mem::forget(r);
+        }
+    };
+}
+enc_text_utf8_fixed!(c01_enc_s_utf8_fixed2, "\u{e9}");
+enc_text_utf8_fixed!(c01_enc_s_utf8_fixed3, "\u{20ac}");
